@@ -227,6 +227,19 @@ def make_row(cls, n, rnd, dtype):
         v = torch.randn(n) * float(fin.tiny) * 4
     elif cls == "huge":
         v = torch.randn(n).clamp(-1, 1) * float(fin.max) * 0.4
+    elif cls == "underflow":
+        # a few units of the smallest subnormal: absmax / qmax is not representable (it rounds to zero)
+        eta = 2.0 ** ETA[FMT_NAME[dtype]]
+        v = torch.tensor([float(rnd.randint(-40, 40)) for _ in range(n)], dtype=torch.float64) * eta
+        if not bool((v != 0).any()):
+            v[0] = 3 * eta
+        return v.to(dtype)
+    elif cls == "loguniform":
+        # any binade of the format, away from the two ends: the properties are scale invariant
+        lo, hi = math.log2(float(fin.tiny)) + 6, math.log2(float(fin.max)) - 2
+        v = torch.randn(n).clamp(-2, 2) / 2 * 2.0 ** rnd.uniform(lo, hi)
+        if rnd.random() < 0.3:
+            v = -v.abs() if rnd.random() < 0.5 else v.abs()
     elif cls == "mixed":
         v = torch.randn(n) * torch.tensor([10.0 ** rnd.randint(-3, 2) for _ in range(n)])
     elif cls == "near-max":
@@ -266,7 +279,7 @@ def drive_aff(req):
     rnd = random.Random(req.get("seed", 0))
     torch.manual_seed(req.get("seed", 0))
     traces = []
-    classes_all = req.get("classes", ["noise", "one-sided", "offset", "constant", "zero", "mixed", "single"])
+    classes_all = req.get("classes", ["noise", "one-sided", "offset", "constant", "zero", "mixed", "single", "huge", "loguniform"])
     shapes = [(8,), (4, 8), (8, 4), (2, 3, 4), (2, 2, 2, 4), (6, 12)]
     reps = req.get("reps", 1)
     for fmt in ("float32", "float16", "bfloat16"):
@@ -371,7 +384,7 @@ def drive_range(req):
     torch.manual_seed(req.get("seed", 0))
     traces = []
     shapes = [(7,), (4, 6), (6, 4), (5, 5), (2, 3, 4), (2, 2, 3, 2)]
-    classes = ["noise", "one-sided", "offset", "constant", "zero", "mixed", "single", "tiny"]
+    classes = ["noise", "one-sided", "offset", "constant", "zero", "mixed", "single", "tiny", "huge", "loguniform", "underflow"]
     for fmt in ("float32", "float16", "bfloat16"):
         dtype = FMT[fmt]
         for shape in shapes:
@@ -615,7 +628,7 @@ def drive_finite(req):
     rnd = random.Random(req.get("seed", 0))
     torch.manual_seed(req.get("seed", 0))
     traces = []
-    classes = ["zero", "constant", "one-sided", "offset", "subnormal", "near-max", "mixed", "single", "mixed-max", "noise", "tiny"]
+    classes = ["zero", "constant", "one-sided", "offset", "subnormal", "near-max", "mixed", "single", "mixed-max", "noise", "tiny", "huge", "loguniform", "underflow"]
     shapes = [(4, 8), (8, 4), (2, 3, 4), (6,)]
     for fmt in ("float32", "float16", "bfloat16"):
         dtype = FMT[fmt]
